@@ -7,10 +7,15 @@
 (* the Go harness replays against tls.Marshal / tls.Unmarshal on types it  *)
 (* builds at run time with reflect.StructOf.                               *)
 (***************************************************************************)
-EXTENDS TLSCodec, Integers, Json, TLC
+EXTENDS TLSCodec, Integers, Json, TLC, IOUtils
 
-CONSTANTS Tier,      \* "quick" | "thorough": which kind lists / families are enumerated
-          Part, Parts \* this run exports the cases whose ordinal is Part modulo Parts (parallel export)
+CONSTANT Tier     \* "quick" | "thorough": which kind lists / families are enumerated
+
+\* The driver runs Parts TLC processes in parallel (export needs -workers 1); this one takes the cases whose
+\* ordinal is Part modulo Parts.  Both come from the environment: VERIF_PART, VERIF_PARTS.
+EnvOr(name, default) == IF name \in DOMAIN IOEnv THEN IOEnv[name] ELSE default
+Part == atoi(EnvOr("VERIF_PART", "0"))
+Parts == atoi(EnvOr("VERIF_PARTS", "1"))
 
 VARIABLE c
 vars == <<c>>
